@@ -11,7 +11,7 @@ use crate::builder_gen::Tier;
 use crate::payload::Fun;
 use crate::rng::Rng;
 use crate::rt_case::{
-    Api, Body, CallCfg, CallEv, CallEvKind, RtCase, Run, SEv, Strat, StreamCfg,
+    Api, Body, CallCfg, CallEv, CallEvKind, MixEv, RtCase, Run, SEv, Strat, StreamCfg,
 };
 use crate::rt_exec::{build_graph, CallRun, GRef, Status, StreamRun};
 
@@ -62,6 +62,7 @@ pub fn generate(tier: Tier, rng: &mut Rng, sink: &mut dyn FnMut(RtCase)) {
     gen_hist(&mut g);
     gen_pair(&mut g);
     gen_spair(&mut g);
+    gen_mpair(&mut g);
 }
 
 // ---------------------------------------------------------------------------------------------
@@ -1321,5 +1322,92 @@ fn gen_spair(g: &mut Gen) {
             }
         }
         g.emit("spair", &ops, Body::Z(a, b, evs));
+    }
+}
+
+// ---------------------------------------------------------------------------------------------
+// mpair: a stream and a call on one graph value, interleaved
+// ---------------------------------------------------------------------------------------------
+
+fn gen_mpair(g: &mut Gen) {
+    let count = g.pick(300, 3000);
+    for _ in 0..count {
+        let (ops, n) = random_graph(g.rng, 1, 6, true);
+        let graph = must_build(&ops);
+        let a = random_stream_cfg(g.rng);
+        let b = random_call_cfg(g.rng, n, false, &Api::ALL);
+        let mut evs: Vec<MixEv> = Vec::new();
+        {
+            let mut ra: Option<StreamRun> = None;
+            let mut rb: Option<CallRun> = None;
+            let mut sb = Sched::new();
+            let mut call_live = true;
+            let mut stream_live = true;
+            let cap = 2 * (6 * n + 20);
+            // shapes: random interleaving; stream first until exhausted (refs held), then the call with
+            // the stream's refs dropped in between; call first, stream created while it is in flight
+            let shape = g.rng.below(3);
+            let mut a_exhausted = false;
+            while (call_live || stream_live) && evs.len() < cap {
+                let stream_turn = match shape {
+                    1 if !a_exhausted => true,
+                    _ => {
+                        if call_live && stream_live {
+                            g.rng.chance(1, 2)
+                        } else {
+                            stream_live
+                        }
+                    }
+                };
+                if stream_turn {
+                    let run = ra.get_or_insert_with(|| StreamRun::new(&graph, &a));
+                    if run.stopped() {
+                        stream_live = false;
+                        continue;
+                    }
+                    let held = run.held_ids();
+                    if run.finished() && held.is_empty() {
+                        stream_live = false;
+                        a_exhausted = true;
+                        continue;
+                    }
+                    let e = if shape == 1 && !a_exhausted {
+                        SEv::Next
+                    } else if !held.is_empty() && (run.finished() || run.last_pending() || g.rng.chance(1, 2)) {
+                        SEv::Drop(held[g.rng.below(held.len())])
+                    } else if a.int && g.rng.chance(1, 12) {
+                        SEv::Interrupt
+                    } else {
+                        SEv::Next
+                    };
+                    run.apply(&e);
+                    evs.push(MixEv::A(e));
+                    if run.finished() || run.last_pending() {
+                        a_exhausted = true;
+                    }
+                    if held.is_empty() && run.last_pending() && !run.flag() {
+                        stream_live = false; // nothing can happen to the stream any more
+                    }
+                } else {
+                    let run = rb.get_or_insert_with(|| CallRun::new(GRef::Shared(&graph), &b));
+                    match step(g.rng, run, &b, KNOBS_RAND, &mut sb) {
+                        None => call_live = false,
+                        Some(batch) => {
+                            for e in batch {
+                                run.apply(&e);
+                                evs.push(MixEv::B(e));
+                            }
+                        }
+                    }
+                }
+            }
+            if let Some(r) = ra.as_mut() {
+                r.finish();
+            }
+            if let Some(r) = rb.as_mut() {
+                r.finish();
+            }
+        }
+        g.emit("mpair", &ops, Body::W(a, b, evs));
     }
 }
